@@ -1059,6 +1059,72 @@ func c16EarlyExit(r *core.Report) {
 					}
 				}
 			}
+			// the same inside a loop: `if item.F == nil { continue }` at the head of the body, and the
+			// rest of the body reading other fields of the item
+			ast.Inspect(d.Body, func(m ast.Node) bool {
+				rs, ok := m.(*ast.RangeStmt)
+				if !ok {
+					return true
+				}
+				for _, st := range rs.Body.List {
+					is, ok := st.(*ast.IfStmt)
+					if !ok {
+						continue // (the item may be fetched first: `mediatype := c[name]`)
+					}
+					if is.Else != nil || len(is.Body.List) == 0 {
+						break
+					}
+					br, isBr := is.Body.List[len(is.Body.List)-1].(*ast.BranchStmt)
+					if !isBr || br.Tok != token.CONTINUE {
+						break
+					}
+					// the item: a variable of this iteration (the range variable, or one defined in the body)
+					var item types.Object
+					fs := map[string]bool{}
+					ast.Inspect(is.Cond, func(c ast.Node) bool {
+						if sel, ok := c.(*ast.SelectorExpr); ok {
+							if f := core.FieldSel(info, sel); f != nil {
+								if id, ok := ast.Unparen(sel.X).(*ast.Ident); ok {
+									if o := info.ObjectOf(id); o != nil && o.Pos() >= rs.Pos() && o.Pos() < is.Pos() && (item == nil || item == o) {
+										item = o
+										fs[f.Name()] = true
+									}
+								}
+							}
+						}
+						return true
+					})
+					if item == nil || len(fs) == 0 {
+						break
+					}
+					k++
+					key := fmt.Sprintf("earlyexit:%s#%d(loop)", core.FuncName(d), k)
+					var missing []string
+					seenF := map[string]bool{}
+					ast.Inspect(rs.Body, func(c ast.Node) bool {
+						sel, ok := c.(*ast.SelectorExpr)
+						if !ok || sel.Pos() < is.End() {
+							return true
+						}
+						f := core.FieldSel(info, sel)
+						if f == nil {
+							return true
+						}
+						if id, ok := ast.Unparen(sel.X).(*ast.Ident); ok && info.ObjectOf(id) == item && !fs[f.Name()] && !seenF[f.Name()] {
+							seenF[f.Name()] = true
+							missing = append(missing, f.Name())
+						}
+						return true
+					})
+					sort.Strings(missing)
+					if len(missing) > 0 {
+						r.Bad(key, p.Pos(is.Pos()), fmt.Sprintf("%s skips an item when %s, but goes on to walk %s.%s, which the condition does not look at: an item that has only that (a media type with examples and no schema) is skipped, and the references below it are never rewritten", core.FuncName(d), core.ExprStr(is.Cond), item.Name(), strings.Join(missing, ", "+item.Name()+".")))
+					} else {
+						r.OK(key, p.Pos(is.Pos()), "the skip tests every field of the item that the loop walks")
+					}
+				}
+				return true
+			})
 			if k == 0 {
 				r.OK("earlyexit:"+core.FuncName(d), p.Pos(d.Pos()), "no leaf shortcut")
 			}
